@@ -1420,7 +1420,18 @@ func (c *Ctx) classifyLoop(fn *ssa.Function, h *ssa.BasicBlock, body map[*ssa.Ba
 		return false
 	}
 	cutP4 := func(b *ssa.BasicBlock) bool {
-		return len(blockCalls(b, ia.executeOne)) > 0
+		if len(blockCalls(b, ia.executeOne)) > 0 {
+			return true
+		}
+		// a helper that dispatches on every path to its return counts as well
+		for _, ins := range b.Instrs {
+			if call, ok := ins.(ssa.CallInstruction); ok {
+				if g := call.Common().StaticCallee(); g != nil && mustCall(g, ia.executeOne, 2) {
+					return true
+				}
+			}
+		}
+		return false
 	}
 	// the dispatch loop of the interpreter: every iteration passes the operation counter
 	cutGate := func(b *ssa.BasicBlock) bool {
@@ -1523,4 +1534,37 @@ func cycleInBody(h *ssa.BasicBlock, body map[*ssa.BasicBlock]bool, cut func(*ssa
 		}
 	}
 	return false
+}
+
+// mustCall: every path from the entry of g to a return passes a call of target (directly or
+// through a callee for which the same holds).
+func mustCall(g, target *ssa.Function, depth int) bool {
+	if g == nil || len(g.Blocks) == 0 || depth < 0 || g == target {
+		return false
+	}
+	cut := func(b *ssa.BasicBlock) bool {
+		for _, ins := range b.Instrs {
+			if call, ok := ins.(ssa.CallInstruction); ok {
+				if sc := call.Common().StaticCallee(); sc == target || (sc != nil && sc != g && mustCall(sc, target, depth-1)) {
+					return true
+				}
+			}
+		}
+		return false
+	}
+	seen := map[*ssa.BasicBlock]bool{}
+	st := []*ssa.BasicBlock{g.Blocks[0]}
+	for len(st) > 0 {
+		b := st[len(st)-1]
+		st = st[:len(st)-1]
+		if seen[b] || cut(b) {
+			continue
+		}
+		seen[b] = true
+		if _, isRet := b.Instrs[len(b.Instrs)-1].(*ssa.Return); isRet {
+			return false
+		}
+		st = append(st, b.Succs...)
+	}
+	return true
 }
